@@ -143,7 +143,9 @@ func (va ClawbackVestingAccount) GetVestingPeriods() sdkvesting.Periods {
 
 // Validate checks for errors on the account fields
 func (va ClawbackVestingAccount) Validate() error {
-	if va.GetStartTime() >= va.GetEndTime() {
+	// an account whose whole grant was clawed back keeps no coins: its end time may coincide with its start time
+	emptied := va.OriginalVesting.IsZero()
+	if va.GetStartTime() > va.GetEndTime() || (va.GetStartTime() == va.GetEndTime() && !emptied) {
 		return errors.New("vesting start-time must be before end-time")
 	}
 
